@@ -24,6 +24,8 @@ func init() {
 			"C20.R5 MPT: a hit in DuplicateFonts/DuplicateImages is followed by a redirect of the resource entry (or the replacement is returned)",
 			"C20.R6 TABLE siblings: page attributes the reader inherits from /Pages nodes are in the writer's table for such nodes",
 			"C20.R7 MPT: a content stream is replaced by a cached one only on a comparison of stored bytes",
+			"C20.R8 like-with-like: resource names from a content stream are decoded (DecodeName) before they are compared with dictionary keys",
+			"C20.R9 TABLE: references built in optimize.go carry a generation read from the xref table, never a constant",
 			"C20.R4 shape: the content scanner that decides which resources a page uses tracks backslash parity when it skips string literals",
 			"C20.R3 shape: resource inheritance consolidation lets the nearer definition override (unconditional store per key)",
 		},
@@ -45,6 +47,10 @@ func runC20(c *Ctx) {
 	r.MinInst["C20.R6"] = 3
 	checkInheritableEntriesWritten(c)
 	r.MinInst["C20.R7"] = 1
+	r.MinInst["C20.R8"] = 2
+	checkContentNamesDecoded(c)
+	r.MinInst["C20.R9"] = 1
+	checkOptimizeRefsCarryGeneration(c)
 	checkContentDedupComparesStoredBytes(c)
 	// ---- R1
 	n := 0
@@ -647,5 +653,119 @@ func checkContentDedupComparesStoredBytes(c *Ctx) {
 	}
 	if n == 0 {
 		r.Bad("C20.R7", FuncID(fn), "redirect", p.Pos(fn.Pos()), "UNRESOLVED-ANCHOR: no return of a replacement reference found")
+	}
+}
+
+// ---------------- C20.R8 / R9 (round 4: two genuine defects reported by a seeding agent, repaired in /repo) ----------------
+
+// R8 (like with like): the resource consolidation removes from a page's resource dictionary every entry whose key
+// is not among the names the page's content uses. Dictionary keys are decoded when parsed (parseName calls
+// DecodeName), so the names the content scanner hands to the recorders (resourceNameAtPos1/2) have to be decoded
+// too: the argument derives from a DecodeName result, and any other source it has is that call's own argument
+// (fallback when the name does not decode). The pinned tree compared "Helv#20Regular" with "Helv Regular" and
+// deleted the font (repaired 4bb7288a).
+func checkContentNamesDecoded(c *Ctx) {
+	p, r := c.P, c.R
+	const fid = "pkg/pdfcpu/model.parseContent"
+	fn := p.Func(fid)
+	if fn == nil {
+		r.Bad("C20.R8", fid, "anchor", "", "UNRESOLVED-ANCHOR")
+		return
+	}
+	n := 0
+	eachInstr(fn, func(_ *ssa.BasicBlock, _ int, i ssa.Instruction) {
+		call, ok := i.(*ssa.Call)
+		if !ok {
+			return
+		}
+		f := staticCallee(call)
+		if f == nil || !strings.HasPrefix(f.Name(), "resourceNameAtPos") || len(call.Call.Args) < 2 {
+			return
+		}
+		n++
+		construct := "name handed to " + f.Name()
+		var decodeArgs []ssa.Value
+		decoded := false
+		leaves := valueLeaves(call.Call.Args[1])
+		for _, l := range leaves {
+			if ex, ok := l.(*ssa.Extract); ok {
+				if cl, ok := ex.Tuple.(*ssa.Call); ok {
+					if _, ref := callRef(cl); strings.HasSuffix(ref, "types.DecodeName") {
+						decoded = true
+						decodeArgs = append(decodeArgs, cl.Call.Args[0])
+					}
+				}
+			}
+		}
+		other := false
+		for _, l := range leaves {
+			if ex, ok := l.(*ssa.Extract); ok {
+				if cl, ok := ex.Tuple.(*ssa.Call); ok {
+					if _, ref := callRef(cl); strings.HasSuffix(ref, "types.DecodeName") {
+						continue
+					}
+				}
+			}
+			if cst, ok := l.(*ssa.Const); ok && cst.Value != nil {
+				continue // the initial empty name
+			}
+			isArg := false
+			for _, a := range decodeArgs {
+				for _, al := range valueLeaves(a) {
+					if al == l {
+						isArg = true
+					}
+				}
+			}
+			if !isArg {
+				other = true
+			}
+		}
+		switch {
+		case !decoded:
+			r.Bad("C20.R8", fid, construct, p.Pos(call.Pos()), "the resource name taken from the content stream is recorded as spelled (with its #xx escapes) while resource dictionary keys are decoded when parsed: a resource whose name needs an escape is taken for unused and deleted from the page by the consolidation")
+		case other:
+			r.Bad("C20.R8", fid, construct, p.Pos(call.Pos()), "on some path the recorded name is neither DecodeName's result nor its argument (fallback)")
+		default:
+			r.OK("C20.R8", fid, construct, p.Pos(call.Pos()), "DecodeName's result (its argument only as the fallback when decoding fails)", true)
+		}
+	})
+	if n == 0 {
+		r.Bad("C20.R8", fid, "recorders", p.Pos(fn.Pos()), "UNRESOLVED-ANCHOR: parseContent no longer calls resourceNameAtPos1/2")
+	}
+}
+
+// R9: a reference to an object that already exists carries that object's generation. In optimize.go every
+// types.NewIndirectRef call gets its generation from an xref entry (a load), not from a constant: "n 0 R" to an
+// object written as "n 2 obj" names nothing (repaired 96731bc2; the helper indRefForObjNr is the positive instance).
+func checkOptimizeRefsCarryGeneration(c *Ctx) {
+	p, r := c.P, c.R
+	n, good := 0, 0
+	for _, fn := range p.Funcs {
+		if !isSubject(fn) || !strings.HasSuffix(p.File(fn.Pos()), "pkg/pdfcpu/optimize.go") {
+			continue
+		}
+		k := 0
+		eachInstr(fn, func(_ *ssa.BasicBlock, _ int, i ssa.Instruction) {
+			call, ok := i.(*ssa.Call)
+			if !ok {
+				return
+			}
+			if _, ref := callRef(call); !strings.HasSuffix(ref, "types.NewIndirectRef") || len(call.Call.Args) != 2 {
+				return
+			}
+			k++
+			n++
+			construct := fmt.Sprintf("NewIndirectRef#%d", k)
+			if _, isConst := call.Call.Args[1].(*ssa.Const); isConst {
+				r.Bad("C20.R9", FuncID(fn), construct, p.Pos(call.Pos()), "a reference to an existing object is built with a constant generation number: when the object has another generation (its number was reused after an incremental update) the written reference names no object and the resource it replaces disappears from the page")
+			} else {
+				good++
+				r.OK("C20.R9", FuncID(fn), construct, p.Pos(call.Pos()), "the generation is "+exprName(call.Call.Args[1])+" (not a constant)", true)
+			}
+		})
+	}
+	if n == 0 || good == 0 {
+		r.Bad("C20.R9", "pkg/pdfcpu/optimize.go", "anchor", "", "UNRESOLVED-ANCHOR: no NewIndirectRef call with a generation read from the xref table in optimize.go")
 	}
 }
